@@ -765,6 +765,19 @@ RAND_TOKENS = ["<", ">", "&", '"', "'", "</pre>", "<script>alert(1)</script>", "
 NS_SEGS = ["zqs", "zqsx", "zqu", "zquv", "zqv"]  # some are string prefixes of others
 
 
+def id_neighbour_universe():
+    """one name in versions whose tag ids are digit-concatenation neighbours (<name>_1_1 + "0" = <name>_1_10, + "1" = <name>_1_11,
+    <name>_1_2 + "0" = <name>_1_20, <name>_2_1 + "0" = <name>_2_10; 21.0 is the neighbour that must NOT collide), and a type that
+    sorts before it and nests the lower versions (1.1 twice): a nested block whose id is the tag id plus a counter takes the id of
+    the entry of another version.  P decides (html.balanced duplicate-id: an id occurs once per page)."""
+    vers = [[1, 1], [1, 10], [1, 11], [1, 2], [1, 20], [2, 1], [2, 10], [21, 0]]
+    types = [{"ns": ["zqra"], "name": "ZqxT", "ver": v, "kind": "struct", "deprecated": False, "refs": [], "doc": 0, "cval": "60"} for v in vers]
+    types.append({"ns": ["zqra"], "name": "ZqaN", "kind": "struct", "deprecated": False, "doc": 0, "cval": "60",
+                  "refs": [{"to": vers.index(v), "how": how, "where": "field"}
+                           for v, how in (([1, 1], "plain"), ([1, 1], "plain"), ([1, 2], "plain"), ([2, 1], "plain"), ([1, 1], "varr"))]})
+    return {"types": types, "nsdocs": [], "spans": {}}
+
+
 def rand_universe(rng):
     nroots = rng.choice([1, 2, 2, 3])
     roots = rng.sample(["zqra", "zqrax", "zqrb"], nroots)  # zqra is a string prefix of zqrax
@@ -1002,6 +1015,12 @@ def run(ctx):
     if 5 * hostile < len(payloads):
         raise MachineryFailure("not every enumerated payload was planted (%d slots for %d payloads)" % (5 * hostile, len(payloads)))
     n_model = len(cases)
+    # ---- 2b. fixed universe: versions whose tag ids are digit-concatenation neighbours, under the default and a non-default configuration
+    for config in ({}, {"stem": "page", "ext": ".htm"}):
+        rid = len(cases)
+        cases[rid] = {"universe": id_neighbour_universe(), "public": False, "config": config}
+        jobs.append((rid, cases[rid]["universe"], False, scratch, config))
+    n_fixed = len(cases) - n_model
     # ---- 3. code -> spec: larger random universes (deeper trees, more types, payloads over a larger alphabet) ----------
     for _ in range(ctx.pick(130, 2000)):
         rid = len(cases)
@@ -1068,6 +1087,8 @@ def run(ctx):
                        "deprecated%s; %s), all root namespaces generated into one output directory, every 4th run with plain text only; "
                        "run configuration (name of the namespace pages): default + {namespace file stem 'page', output extension '.htm', both} "
                        "for %s, through LanguageContextBuilder overrides and, for %d runs, `python -m nunavut`; "
+                       "a fixed universe with one name in the versions 1.1/1.10/1.11, 1.2/1.20, 2.1/2.10/21.0 (tag ids that are "
+                       "digit-concatenation neighbours) and a type sorted before it that nests the lower ones, default and stem+extension configuration; "
                        "code->spec: %d seeded random universes (1-3 roots, nesting <=4, 3-8 types, payloads over %d tokens incl. unicode, "
                        "character references, comment/CDATA/raw-text openers); one trace per page, one TLC state per token event; "
                        "distinct = (origin, configuration class, page kind, universe+page hash)"
@@ -1075,7 +1096,7 @@ def run(ctx):
                           ctx.pick("quick: every (namespaces, kinds) combination with one of the three array kinds, rotating", "all shapes"),
                           ctx.pick("one shape per ordered pair of namespaces and configuration (kinds rotating)", "all shapes"),
                           sum(1 for c in cases.values() if cfg_of(c.get("config"))[2]),
-                          len(cases) - n_model, len(RAND_TOKENS)))
+                          len(cases) - n_model - n_fixed, len(RAND_TOKENS)))
     runs_by_cfg = {}
     for rid in by_run:
         c = cases[rid].get("config")
